@@ -337,6 +337,35 @@ func replayRule(c *an.Ctx, roles map[string]*fileRole, construction map[*ssa.Fun
 				}
 				continue
 			}
+			// third form: a byte cursor (for off := 0; off+80 <= len(data); off += 80 { record := data[off : off+80] ... })
+			if at.K == an.KSlice && len(at.A) == 3 && at.A[1].K == an.KPhi && at.A[2].Key() == an.NormBin("+", at.A[1], an.ConstTerm("80")).Key() {
+				offT := at.A[1]
+				if ph, isPhi := offT.Val.(*ssa.Phi); isPhi {
+					init, step, other := false, false, false
+					for _, e := range ph.Edges {
+						et := fi.Term(e)
+						switch {
+						case isConstTerm(et, "0"):
+							init = true
+						case et.Key() == an.NormBin("+", offT, an.ConstTerm("80")).Key():
+							step = true
+						default:
+							other = true
+						}
+					}
+					bound := an.NormBin("<=", an.NormBin("+", offT, an.ConstTerm("80")), an.LenTerm(at.A[0]))
+					hasBound := fi.FactsAt(call).Has(bound.Key())
+					desc = "record slice " + short(at.Key()) + " at a byte cursor that starts at 0 and advances by 80: " + fmt.Sprint(init && step && !other) + "; loop runs while cursor+80 <= len(data): " + fmt.Sprint(hasBound)
+					if init && step && !other && hasBound {
+						okAll = true
+						if l := innermostLoopOf(loader, call.Block()); l != nil {
+							okExit, why := l.noSilentEarlyExit(fi)
+							c.Check(okExit, "REPLAY", loader, call.Pos(), an.KeyOf(loader, "no-early-exit"), "the record loop of the report loader is left only when all records were visited or by an error that aborts start-up (no break / silent return that drops the remaining records)", why)
+						}
+					}
+				}
+				continue
+			}
 			if at.K != an.KSlice || len(at.A) < 3 || at.A[1].K != an.KBin || at.A[1].S != "*" {
 				continue
 			}
